@@ -90,7 +90,8 @@ structure Inv (G : Nat → List Nat) (E : List (Nat × Nat)) (sm : SM) (gs : Lis
     ∃ a b, ((a, b) ∈ E ∨ (b, a) ∈ E) ∧ rootFn sm.uf a = r ∧ rootFn sm.uf b = w
   apart : ∀ a b, (a, b) ∈ E → rootFn sm.uf a ≠ rootFn sm.uf b
   preds_bound : ∀ k ps, sm.preds k = some ps → ∀ p ∈ ps, p < sm.n
-  preds_noself : ∀ r ps, rootFn sm.uf r = r → sm.preds r = some ps → ∀ p ∈ ps, rootFn sm.uf p ≠ r
+  preds_noself : ∀ r ps, r < sm.n → rootFn sm.uf r = r → sm.preds r = some ps →
+    ∀ p ∈ ps, rootFn sm.uf p ≠ r
 
 /-! ### `new` -/
 
@@ -306,9 +307,9 @@ theorem new_inv {n : Nat} {G : Nat → List Nat} {E : List (Nat × Nat)} {sm : S
         by_cases hkn : k < n
         · simp [hkn] at hk; subst hk; exact hG k hkn p hp
         · simp [hkn] at hk
-      · intro r ps _ hk p hp
+      · intro r ps hkn _ hk p hp
         simp only [hrep]
-        by_cases hkn : r < n
+        by_cases hkn' : r < n
         · simp [hkn] at hk; subst hk
           intro hpr; subst hpr
           -- `p ∈ G p` contradicts the topological order
@@ -318,6 +319,6 @@ theorem new_inv {n : Nat} {G : Nat → List Nat} {E : List (Nat × Nat)} {sm : S
           have := hresp.split l1 p l2 hs p hp'
           rw [hs] at hnd
           exact (List.nodup_append.1 hnd).2.2 p this p (by simp) rfl
-        · simp [hkn] at hk
+        · exact absurd hkn hkn'
 
 end HvGraphAlg
